@@ -394,9 +394,23 @@ func (s *Syncer) addPeer(p *Peer) error {
 		return fmt.Errorf("failed to update peer info: %w", err)
 	}
 
+	// allowConnect checked the caps before the handshake, but any number of
+	// handshakes can be in flight at once; re-check under the lock that also
+	// guards the insertion so that the caps hold for the peer set itself.
 	s.mu.Lock()
+	defer s.mu.Unlock()
+	if p.Inbound {
+		var in int
+		for _, other := range s.peers {
+			if other.Inbound {
+				in++
+			}
+		}
+		if in >= s.config.MaxInboundPeers {
+			return errors.New("too many inbound peers")
+		}
+	}
 	s.peers[p.t.Addr] = p
-	s.mu.Unlock()
 	return nil
 }
 
